@@ -1,3 +1,6 @@
+#[cfg(kanal_verif)]
+#[allow(unused_imports)]
+use crate::verif::{core, std};
 use core::{
     cell::UnsafeCell,
     mem::{forget, size_of, zeroed, MaybeUninit},
@@ -35,6 +38,8 @@ impl<T> KanalPtr<T> {
     #[inline(always)]
     pub(crate) fn new_from(addr: *mut T) -> Self {
         if size_of::<T>() > size_of::<*mut T>() {
+            #[cfg(kanal_verif)]
+            crate::verif::wr(addr);
             Self(UnsafeCell::new(MaybeUninit::new(addr)))
         } else {
             Self(UnsafeCell::new(unsafe { store_as_kanal_ptr(addr) }))
@@ -58,6 +63,8 @@ impl<T> KanalPtr<T> {
     #[inline(always)]
     pub(crate) fn new_write_address_ptr(addr: *mut T) -> Self {
         if size_of::<T>() > size_of::<*mut T>() {
+            #[cfg(kanal_verif)]
+            crate::verif::wr(addr);
             Self(UnsafeCell::new(MaybeUninit::new(addr)))
         } else {
             Self(UnsafeCell::new(MaybeUninit::uninit()))
@@ -69,11 +76,22 @@ impl<T> KanalPtr<T> {
     #[cfg(feature = "async")]
     #[inline(always)]
     pub(crate) fn new_unchecked(addr: *mut T) -> Self {
+        #[cfg(kanal_verif)]
+        if size_of::<T>() > size_of::<*mut T>() {
+            crate::verif::wr(addr);
+        }
         Self(UnsafeCell::new(MaybeUninit::new(addr)))
     }
     /// Reads data based on movement protocol of KanalPtr based on size of T
     #[inline(always)]
     pub(crate) unsafe fn read(&self) -> T {
+        #[cfg(kanal_verif)]
+        if size_of::<T>() > 0 {
+            crate::verif::rd(self.0.get());
+            if size_of::<T>() > size_of::<*mut T>() {
+                crate::verif::rd((*self.0.get()).assume_init());
+            }
+        }
         if size_of::<T>() == 0 {
             zeroed()
         } else if size_of::<T>() > size_of::<*mut T>() {
@@ -85,6 +103,13 @@ impl<T> KanalPtr<T> {
     /// Writes data based on movement protocol of KanalPtr based on size of T
     #[inline(always)]
     pub(crate) unsafe fn write(&self, d: T) {
+        #[cfg(kanal_verif)]
+        if size_of::<T>() > size_of::<*mut T>() {
+            crate::verif::rd(self.0.get());
+            crate::verif::wr((*self.0.get()).assume_init());
+        } else if size_of::<T>() > 0 {
+            crate::verif::wr(self.0.get());
+        }
         if size_of::<T>() > size_of::<*mut T>() {
             ptr::write((*self.0.get()).assume_init(), d);
         } else {
@@ -98,6 +123,13 @@ impl<T> KanalPtr<T> {
     #[inline(always)]
     #[allow(unused)]
     pub(crate) unsafe fn copy(&self, d: *const T) {
+        #[cfg(kanal_verif)]
+        if size_of::<T>() > size_of::<*mut T>() {
+            crate::verif::rd(self.0.get());
+            crate::verif::wr((*self.0.get()).assume_init());
+        } else if size_of::<T>() > 0 {
+            crate::verif::wr(self.0.get());
+        }
         if size_of::<T>() > size_of::<*mut T>() {
             // Data can't be stored as pointer value, move it to pointer
             // location
